@@ -58,6 +58,8 @@ class Ctx:
         self.trace = []
         self.ghost = {}  # free slot for contract/ghost state
         self.axiom_tags = []  # names of library contracts / axioms used on this path
+        self.inst_axioms = []  # (arity, make(*terms)) quantified facts the engine may instantiate at the goal's Skolem terms
+        self.inst_terms = []  # unary term generators t -> f(t) used to build one more level of instantiation terms
 
     # -- naming -------------------------------------------------------------------------------
     def name(self, base):
@@ -96,6 +98,9 @@ class Ctx:
             goal = z3.BoolVal(True)
         elif goal is False:
             goal = z3.BoolVal(False)
+        meta = dict(meta or {})
+        meta['inst_axioms'] = list(self.inst_axioms)
+        meta['inst_terms'] = list(self.inst_terms)
         self.obls.append(
             Obligation(name, kind, list(self.hyps), goal, line=line, func=self.func,
                        path=''.join('T' if d else 'F' for d in self.taken), meta=meta)
@@ -192,6 +197,71 @@ class Verdict:
         self.smt2 = smt2
 
 
+_SK = [0]
+
+
+def skolemize(e, pos=True, consts=None):
+    """Replace universally quantified variables at positive positions of a goal by fresh constants (so that the
+    negated goal is ground in them); returns the rewritten formula and the list of introduced constants."""
+    if consts is None:
+        consts = []
+    if z3.is_quantifier(e) and ((e.is_forall() and pos) or (e.is_exists() and not pos)):
+        n = e.num_vars()
+        fresh = []
+        for i in range(n):
+            _SK[0] += 1
+            c = z3.Const(f'sk!{e.var_name(i)}!{_SK[0]}', e.var_sort(i))
+            fresh.append(c)
+        consts.extend(fresh)
+        body = z3.substitute_vars(e.body(), *reversed(fresh))
+        return skolemize(body, pos, consts)[0], consts
+    if z3.is_app(e):
+        k = e.decl().kind()
+        ch = e.children()
+        if k == z3.Z3_OP_AND and pos or k == z3.Z3_OP_OR and not pos:
+            # only one conjunct needs to fail: constants of different conjuncts are independent, all are kept
+            return (z3.And if k == z3.Z3_OP_AND else z3.Or)(*[skolemize(c, pos, consts)[0] for c in ch]), consts
+        if k == z3.Z3_OP_OR and pos or k == z3.Z3_OP_AND and not pos:
+            return (z3.Or if k == z3.Z3_OP_OR else z3.And)(*[skolemize(c, pos, consts)[0] for c in ch]), consts
+        if k == z3.Z3_OP_IMPLIES:
+            return z3.Implies(skolemize(ch[0], not pos, consts)[0], skolemize(ch[1], pos, consts)[0]), consts
+        if k == z3.Z3_OP_NOT:
+            return z3.Not(skolemize(ch[0], not pos, consts)[0]), consts
+    return e, consts
+
+
+def goal_directed_instances(ob, sk_consts, limit=400):
+    """Instances of the registered quantified facts at the goal's Skolem constants and one level of index terms over
+    them (sound: instances of assumed axioms; this only helps the solver find the proof)."""
+    axioms = ob.meta.get('inst_axioms') or []
+    if not axioms or not sk_consts:
+        return []
+    ints = [c for c in sk_consts if c.sort().kind() == z3.Z3_INT_SORT][:4]
+    terms = list(ints)
+    mirror = list(ints)
+    for g in (ob.meta.get('inst_terms') or []):
+        for c in ints:
+            try:
+                t = g(c)
+            except Exception:
+                continue
+            terms.append(t)
+            if getattr(g, 'mirror', False):
+                mirror.append(t)
+    out = []
+    import itertools
+    for arity, make in axioms:
+        pool = terms if arity == 1 else mirror
+        for tup in itertools.product(pool, repeat=arity):
+            try:
+                out.append(make(*tup))
+            except Exception:
+                continue
+            if len(out) >= limit:
+                return out
+    return out
+
+
 def _smt2(hyps, goal):
     s = z3.Solver()
     for h in hyps:
@@ -231,6 +301,37 @@ def discharge(ob, timeout_ms=None, want_model=True, second_solver=False):
         tried_cvc5 = True
         if rr == 'unsat':
             return Verdict(ob.name, 'discharged', time.time() - t0, 'cvc5-1.0.3')
+    backend = 'z3-5.1(api)'
+    if ob.meta.get('inst_axioms') and want_model:
+        # portfolio: a short plain attempt, then the goal Skolemised by us with instances of the registered axioms at its
+        # Skolem terms, then (below) the plain query with the full budget
+        s0 = z3.Solver()
+        s0.set('timeout', 1500)
+        s0.set('random_seed', 0)
+        for h in ob.hyps:
+            s0.add(h)
+        s0.add(z3.Not(ob.goal))
+        r0 = s0.check()
+        if r0 == z3.unsat:
+            return Verdict(ob.name, 'discharged', time.time() - t0, backend)
+        if r0 == z3.sat:
+            return Verdict(ob.name, 'failed', time.time() - t0, backend, model=s0.model())
+        try:
+            sk_goal, consts = skolemize(ob.goal)
+            inst = goal_directed_instances(ob, consts)
+            if inst:
+                s2 = z3.Solver()
+                s2.set('timeout', min(timeout_ms, 8000))
+                s2.set('random_seed', 0)
+                for h in ob.hyps:
+                    s2.add(h)
+                for h in inst:
+                    s2.add(h)
+                s2.add(z3.Not(sk_goal))
+                if s2.check() == z3.unsat:
+                    return Verdict(ob.name, 'discharged', time.time() - t0, 'z3-5.1(api)+goal-directed instances')
+        except z3.Z3Exception:
+            pass
     s = z3.Solver()
     s.set('timeout', timeout_ms)
     s.set('random_seed', 0)
@@ -238,7 +339,6 @@ def discharge(ob, timeout_ms=None, want_model=True, second_solver=False):
         s.add(h)
     s.add(z3.Not(ob.goal))
     r = s.check()
-    backend = 'z3-5.1(api)'
     smt2 = None
     if r == z3.unknown:
         reason = s.reason_unknown()
